@@ -56,6 +56,7 @@ FWD_DEFAULT = dict(MaxW=2, Keeps='{"TT"}', AllowFail='TRUE',
 SOCKS_DEFAULT = dict(MaxIn=30, MaxName=255, Runs='{254, 255, 256, 300}',
                      Fixed='TRUE')
 PERM_DEFAULT = dict(SkipPermitOpen='FALSE', SkipCert='FALSE',
+                    EmptySetMeansNoCert='FALSE',
                     LeakOnCancel='FALSE')
 LSN_ALL_KINDS = '{"rfwd", "rsrv", "rpath", "lfwd", "socks", "lpath"}'
 LSN_DEFAULT = dict(N=3, MaxConn=2, KindSet='{"rfwd", "lfwd", "rpath", "socks"}',
@@ -590,6 +591,9 @@ def main(ctx):
     # ForwardPerm
     jobs.append(Job('perm table', 'ForwardPerm', {}, PERM_INVS, workers=1,
                     dump=True))
+    jobs.append(Job('perm sensitivity EmptySetMeansNoCert', 'ForwardPerm',
+                    dict(EmptySetMeansNoCert='TRUE'), ['ServedOnlyIfPermitted'],
+                    expect='ServedOnlyIfPermitted', workers=1))
     jobs.append(Job('perm sensitivity SkipPermitOpen', 'ForwardPerm',
                     dict(SkipPermitOpen='TRUE'), ['ServedOnlyIfPermitted'],
                     expect='ServedOnlyIfPermitted', workers=1))
@@ -1055,6 +1059,14 @@ def main(ctx):
             ctx.count(('perm', json.dumps(row, sort_keys=True), cancel),
                       nontrivial=True)
             rp = {'kind': 'perm', 'row': row, 'cancel': cancel}
+            if decision == 'noauth':
+                # the certificate's source-address does not match: no login
+                if o['auth_ok']:
+                    finds.add('ForwardPerm', 'ServedOnlyIfPermitted',
+                              {'row': row}, 'login accepted although the '
+                              'certificate\'s source-address does not match '
+                              f'the client: {row}', rp, 1)
+                continue
             ctx.require(o['auth_ok'], f'perm row {row}: {o["detail"]}')
             served = o['served'] or bool(o['dest_hits'])
             nserved += bool(o['served'])
